@@ -37,6 +37,8 @@ sys.path.insert(0, os.path.dirname(os.path.abspath(__file__)))
 from common import *
 a = parse_args()
 from hz import *
+import hz as _hz
+_hz.DECOY[0] = False      # this harness records / schedules the writers' own file operations: no decoy history here
 from coqeval import coq_eval, parse_value, zlit
 import seismic_zfp.conversion as conv_mod
 
